@@ -68,6 +68,9 @@ def shapes(tier):
     # windows SMALLER than the parent's alignment granule: their range is padded, and the padding decodes to nothing
     s.append(M(5, 32, 3, R("imp"), W(M(2, 32, 0, R(), R("imp"))), R("imp")))                         # 4-address window, granule 8
     s.append(M(5, 32, 2, W(M(3, 8, 2, R(), R("imp")), sparse=False, mode="imp"), R("imp")))             # dense 4: 2 addresses, granule 4
+    # dense windows over leaves that are MORE aligned than the ratio requires (alignment > log2(ratio))
+    s.append(M(4, 32, 0, R("imp"), W(M(4, 8, 3, R(), R("imp")), sparse=False, name=False)))            # ratio 4, alignment 3
+    s.append(M(4, 32, 0, W(M(3, 16, 2, R(), R("imp")), sparse=False), R("imp")))                       # ratio 2, alignment 2
     # very large address spaces (the arithmetic is width-agnostic; values above 2**53 do not survive a float)
     s.append(M(60, 32, 0, W(M(56, 32, 0, R(), R("imp"))), R("imp")))
     s.append(M(58, 32, 0, R("imp"), W(M(59, 8, 2, R(), R("imp")), sparse=False, mode="imp")))
